@@ -101,6 +101,14 @@ type (
 	Names []string
 )
 
+// Level is a named uint8 type (an enum): a []Level is a list of values, not binary data.
+// Tiny and Port are named int8 / uint16 types for contrast.
+type (
+	Level uint8
+	Tiny  int8
+	Port  uint16
+)
+
 // StrList is a slice type that implements driver.Valuer: ONE bound value everywhere.
 type StrList []string
 
